@@ -435,7 +435,9 @@ static void Tuple_Mark(var self, var gc, void(*f)(var,void*)) {
   size_t i = 0;
   if (t->items is NULL) { return; }
   while (t->items[i] isnt Terminal) {
-    f(gc, t->items[i]); i++;
+    /* (NULL is a legal item: nothing to mark) */
+    if (t->items[i] isnt NULL) { f(gc, t->items[i]); }
+    i++;
   }
 }
 
